@@ -306,6 +306,14 @@ def failing(th, fail):
     return log
 
 
+class _NeverValid(list):
+    """Key of the property memo that never records a state: every read of H, Hf, ... is computed from the present state.
+    Whether the memo notices a change is property C14 (proved there); comparing the remembered and the present
+    composition symbolically between two reactions is what made reaction SYSTEMS under the temperature solve intractable
+    (and undecided, not caught, on the seeded change C06_4).  Trusted-base entry 'memo-off' of the C06 groups."""
+    def __setitem__(self, i, v): pass
+
+
 def make_stream(w, th, tagged, phase, present, name='s'):
     """Real Stream (phase) / MultiStream (PH) on `th` with planted flows >= 0, T, P > 0.
     present: {(phase|None, ID): 'pos'|'maybe'|'zero'}, default 'zero'.  Returns (stream, read, feed)."""
@@ -321,6 +329,7 @@ def make_stream(w, th, tagged, phase, present, name='s'):
             _plant(sv, j, v, kind)
     s.T = w.real(f'{name}.T', lo=0., lo_strict=True)
     s.P = w.real(f'{name}.P', lo=0., lo_strict=True)
+    if isinstance(s._property_cache_key, list): s._property_cache_key = _NeverValid([None, None])
 
     def read():
         out = {}
@@ -337,7 +346,8 @@ def forget(s):
     would have noticed the change is property C14; comparing the old and the new composition symbolically is what makes
     it expensive here.)"""
     key = s._property_cache_key
-    if isinstance(key, list): key[:] = (None, None)   # the key list may be shared with proxies: emptied in place
+    if isinstance(key, _NeverValid): pass
+    elif isinstance(key, list): key[:] = (None, None)   # the key list may be shared with proxies: emptied in place
     else: s._property_cache_key = (None, None)
     s._property_cache.clear()
 
@@ -396,12 +406,12 @@ def programs(tier, tagged):
         'series[a>b;b>c]': {'kind': 'series', 'rxns': [d1, d2]},
         'parallel[a>b|a>bc]': {'kind': 'parallel', 'rxns': [d1, d3]},      # same reactant twice
         'system[par(a>b|b>c);c>a]': {'kind': 'system', 'members': [{'kind': 'parallel', 'rxns': [d1, d2]}, S(d4)]},
+        'system[a>b;b>c]': {'kind': 'system', 'members': [S(d1), S(d2)]},
     }
     if tier == 'thorough':
         out.update({
             'single[c>a]': S(d4),
             'series[a>b;a>bc]': {'kind': 'series', 'rxns': [d1, d3]},
-            'system[a>b;b>c]': {'kind': 'system', 'members': [S(d1), S(d2)]},
             'system[ser(a>b;b>c);c>a]': {'kind': 'system', 'members': [{'kind': 'series', 'rxns': [d1, d2]}, S(d4)]},
             'parallel3[a>b|b>c|c>a]': {'kind': 'parallel', 'rxns': [d1, d2, d4]},
             'series3[a>b;b>c;c>a]': {'kind': 'series', 'rxns': [d1, d2, d4]},
@@ -559,13 +569,16 @@ def hf_configs(tier):
     for kind in ('l', 'g', 'gl'):
         for pkg in ('P', 'Q'):
             out.append({'name': f'phases={kind};pkg={pkg}', 'kind': kind, 'pkg': pkg})
+            # the heats of formation are revised after compiling and the package refreshed as documented
+            # (added after the seeded change C06_3: refresh_constants no longer rebuilt the Hf array)
+            out.append({'name': f'phases={kind};pkg={pkg};Hf-revised', 'kind': kind, 'pkg': pkg, 'revise': True})
     return out
 
 
 @group('C06/Hf_Hnet', configs=hf_configs, l0=True,
        functions=['thermosteam._stream:Stream.Hf', 'thermosteam._stream:Stream.Hnet', 'thermosteam._stream:Stream.H',
                   'thermosteam._multi_stream:MultiStream.mol', 'thermosteam._multi_stream:MultiStream.H',
-                  'thermosteam._chemicals:CompiledChemicals._compile'],
+                  'thermosteam._chemicals:CompiledChemicals._compile', 'thermosteam._chemicals:CompiledChemicals.refresh_constants'],
        assumptions=['A-models'])
 def Hf_Hnet(w, cfg):
     """Hf = sum_k Hf_k * (total flow of k), Hnet = H + Hf; reading them changes nothing."""
@@ -577,6 +590,11 @@ def Hf_Hnet(w, cfg):
     th = stub_thermo_on(w, chems)
     present = {((ph if tagged else None), ID): 'maybe' for ph in (PH if tagged else (None,)) for ID in IDS}
     s, read, feed = make_stream(w, th, tagged, cfg['kind'], present)
+    if cfg.get('revise'):
+        for ID in IDS:
+            _PRIV[ID]._Hf = data[ID]['Hf'] = w.real(f'Hf2.{ID}')
+        chems.refresh_constants()
+        compile_clauses(w, chems, data, tag=' after refresh_constants')
     T0, P0 = s.T, s.P
     Hf = s.Hf
     H = s.H
@@ -611,9 +629,12 @@ def _stream_cfgs(tier, what):
                     if not tagged and not adia: variants += [('mol', 'P', 'maybe', 'l')]
                 if pname in ('parallel[a>b|b>c]', 'series[a>b;b>c]') and not adia:
                     variants += [('wt', 'Q', 'lean', 'l')]
-                if adia and not (single or (pname == 'parallel[a>b|b>c]' and not tagged)):
-                    continue      # adiabatic_reaction is one function shared by all reaction classes; the sets differ only
-                                  # in the isothermal call, which C06/isothermal covers; the other sets run in the thorough tier
+                if adia and not (single or (pname in ('parallel[a>b|b>c]', 'series[a>b;b>c]', 'system[a>b;b>c]') and not tagged)):
+                    continue      # one two-reaction set per reaction class (Reaction, Parallel-, SeriesReaction, ReactionSystem:
+                                  # the seeded change C06_4 gave ReactionSystem its own adiabatic_reaction); larger sets differ
+                                  # only in the isothermal call, which C06/isothermal covers, and run in the thorough tier
+                if not adia and pname == 'system[a>b;b>c]':
+                    continue      # isothermal: the three-reaction system above covers the class in the quick tier
             elif adia:
                 big = _n_rxns(prog) >= 3
                 if big and (tagged or prog['kind'] != 'system'):
@@ -841,7 +862,40 @@ def real_configs(tier):
                     out.append({'name': f'{n}:{rx};feed={phase};T={T:g};{basis};X={X:g};Q={Q:g}', 'n': n, 'phase': phase, 'T': T,
                                 'basis': basis, 'X': X, 'Q': Q, 'kind': 'stream'})
         out.append({'name': f'{n}:{rx};reference state', 'n': n, 'kind': 'reference', 'basis': 'mol', 'X': 0.6})
+    # reaction SETS on real models (added after the seeded change C06_4, which gave ReactionSystem its own
+    # adiabatic_reaction that added Q once per member; the mode-S configuration of that class runs out of budget on it)
+    for cls in ('parallel', 'series', 'system', 'system-of-sets'):
+        for T in ((350.,) if tier == 'quick' else (280., 350., 450.)):
+            for basis, Q in (('mol', 2.5e4), ('wt', -1.0e4)) if tier == 'quick' else (('mol', 2.5e4), ('wt', -1.0e4), ('mol', 0.)):
+                out.append({'name': f'set:{cls};feed=g;T={T:g};{basis};Q={Q:g}', 'kind': 'set', 'cls': cls, 'T': T, 'basis': basis, 'Q': Q})
     return out
+
+
+_SET_IDS = ('CO', 'H2O', 'CO2', 'H2', 'Methanol')
+W.preload([_SET_IDS])
+
+
+def _real_set(w, cfg):
+    th = W.thermo(_SET_IDS)
+    chems = th.chemicals
+    mk = lambda rx, r, X: tmo.Reaction(rx, reactant=r, X=X, chemicals=chems, correct_atomic_balance=True)
+    r1, r2, r3 = mk('CO + H2O -> CO2 + H2', 'CO', 0.6), mk('CO + H2 -> Methanol', 'CO', 0.3), mk('Methanol -> CO + H2', 'Methanol', 0.5)
+    if cfg['basis'] == 'wt':
+        for r in (r1, r2, r3): r.basis = 'wt'
+    obj = {'parallel': lambda: tmo.ParallelReaction([r1, r2]), 'series': lambda: tmo.SeriesReaction([r1, r2]),
+           'system': lambda: tmo.ReactionSystem(r1, r2),
+           'system-of-sets': lambda: tmo.ReactionSystem(tmo.ParallelReaction([r1, r2]), r3)}[cfg['cls']]()
+    s = tmo.Stream(None, thermo=th, phase='g', T=cfg['T'], CO=10., H2O=30., CO2=2., H2=25., Methanol=1.)
+    s2 = s.copy()
+    obj(s)
+    w.ensure('isothermal: T unchanged', w.eq(s.T, cfg['T']))
+    Q = cfg['Q']
+    Hnet0 = s2.Hnet
+    if Q: obj.adiabatic_reaction(s2, Q)
+    else: obj.adiabatic_reaction(s2)
+    w.ensure('adiabatic: Hnet after = Hnet before + Q', w.eq(s2.Hnet, Hnet0 + Q))
+    w.ensure('adiabatic: same material as the isothermal reaction', w.And(*[w.eq(s2.imol[ID], s.imol[ID]) for ID in _SET_IDS]))
+    w.note(T_out=s2.T, Hnet0=Hnet0, Hnet1=s2.Hnet)
 
 
 @group('C06/real_reactions', configs=real_configs, mode='B',
@@ -852,6 +906,8 @@ def real_configs(tier):
              'reaction phase-tagged at 298.15 K with every chemical in its reference phase (where the literal sentence '
              '"Hnet changes by dH * reactant fed" applies without sensible heat)')
 def real_reactions(w, cfg):
+    if cfg['kind'] == 'set':
+        return _real_set(w, cfg)
     rx, reactant, ids = REAL[cfg['n']]
     th = W.thermo(ids)
     chems = th.chemicals
